@@ -158,4 +158,27 @@ inductive Slot | retPtr | ctx | params | fnPtr | vtables
 inductive RetSlot | nothing | transformed
   deriving DecidableEq, Repr, Inhabited
 
+/-- The generic built-in types with a fixed counterpart in Rust (`TypeDescription::{Verdict,
+    Result, Option, List}` on the Rust side; the identifiers `Verdict`, `Result`, `Option`, `List`
+    on the Roto side). -/
+inductive GateHead | verdict | result | option | list
+  deriving DecidableEq, Repr, Inhabited
+
+/-- What an arm of `check_roto_type` compares of the Roto type's resolved name: the whole
+    `ResolvedName { scope: ScopeRef::GLOBAL, ident }`, or the identifier alone. -/
+inductive ScopeTest | global | anyScope
+  deriving DecidableEq, Repr, Inhabited
+
+/-- One arm of `check_roto_type` for a generic built-in type, as the translator reads it:
+    `head` the `TypeDescription` constructor, `scope`/`ident` the name test, `arity` the number of
+    type arguments the slice pattern demands, `pairs` = (Rust component, Roto argument) of every
+    recursive check. -/
+structure GateArm where
+  head : GateHead
+  scope : ScopeTest
+  ident : GateHead
+  arity : Nat
+  pairs : List (Nat × Nat)
+  deriving DecidableEq, Repr, Inhabited
+
 end RotoV.Boundary
